@@ -572,6 +572,7 @@ func init() {
 		150: "the Write calls of one frame are not contiguous on the transport",
 		151: "bytes were written after a close frame",
 		152: "a WriteControl that timed out wrote something",
+		153: "a call failed with ErrCloseSent although no close frame was ever written (a timed-out or failed close poisoned the connection)",
 		199: "malformed observation",
 	}
 	dec := func(raw json.RawMessage) (core.Spec, error) {
